@@ -107,6 +107,11 @@ def main():
         for _ in range(25 if ck.thorough else 14):
             data = gen_qmtp(rng, c)
             exs = [rng.choice(EXITS) for _ in range(4)]
+            if _ < 4:
+                # directed: several packages on one connection, a later one with every recipient refused (or none at all)
+                pk = [ns(b"\n" + gen_body(rng, c["databytes"])) + ns(b"s@x.example") + ns(b"".join(ns(r) for r in rl))
+                      for rl in ([b"joe@ok.dom", b"bob@notok.dom"], [[b"bob@notok.dom", b"n\0ul@notok.dom"], [], [b"noat@notok.dom"], [b"bob@notok.dom"]][_], [b"joe@ok.dom"])]
+                data = b"".join(pk); exs = [0, 0, 0, 0]
             errs = {k + 1: rng.choice([b"Dcustom", b"Zcustom"]) for k, e in enumerate(exs) if e == 82}
             out, rc, subs = S.run(c, data, exs, errs, prog=exe_t)
             tjobs.append((c, data, exs, errs, out, rc, subs))
@@ -126,6 +131,10 @@ def main():
         elif nK > want_K: bad = "ack:positive-reply-without-commit"
         elif rc == 0 and nK < want_K: bad = "ack:committed-but-refused"
         elif rc not in (0, 100, 111): bad = "ack:exit-status"
+        elif any(not e[1] for _, e, _ in good):
+            # a complete envelope without a single recipient was handed over and accepted: a message nobody was
+            # told about sits in the queue (the front end must fail the submission when it accepted no recipient)
+            bad = "ack:refused-message-queued"
         # model: per package expected replies
         packs, end = [x.strip() for x in m.split("|")]
         gen = b""
